@@ -17,6 +17,8 @@ Former findings D1 (SET PRIMARY READS argument compared case-sensitively) and D2
 reproduction of either is a VIOLATION.
 """
 import itertools, json, os, re, struct, subprocess, sys
+if hasattr(sys, "set_int_max_str_digits"):
+    sys.set_int_max_str_digits(0)   # the numeric arguments of the generated commands run to thousands of digits
 from concurrent.futures import ThreadPoolExecutor
 import vlib
 
@@ -304,6 +306,15 @@ def gen_near_misses(rng):
             out.append(c[:i] + c[i] + c[i:])
             out.append(c[:i] + rng.choice("xqz0_-") + c[i + 1:])
         out += [c + "\n", "\n" + c, c + "\r\n", c + " \n", c + ";\n", c + "\t"]
+    # sizes around the limits other parts of the pooler work with (regex_search_limit 1000, the 8196-byte buffers): the WHOLE
+    # query decides, however long it is (a command followed far away by another statement, a command after long padding,
+    # trailing blanks, very long zero-padded numbers)
+    for c in canon[:10]:
+        for n in (986, 1000, 1200, 8200):
+            out += [c + " " * n + "; DELETE FROM t", c + ";" + " " * n + "SELECT 1", " " * n + c, c + " " * n, c + " " * n + ";"]
+    for n in (980, 1200, 8200):
+        for pre in ("SET SHARD TO ", "SET SHARDING KEY TO "):
+            out += [pre + "0" * n + "2", pre + "'" + "0" * n + "1'", pre + "0" * n + "2; SELECT 1", pre + "1" + "0" * n]
     return [s.encode() for s in out]
 
 
